@@ -5,7 +5,8 @@ V=$(cd "$(dirname "$0")/.." && pwd); R="${VERIF_REPO:-/repo}"
 cd "$V"
 for n in ${@:-$(ls seeded)}; do
   [ -f seeded/$n/meta.json ] || continue
-  p=$(python3 -c "import json;print(json.load(open('seeded/$n/meta.json'))['property'])")
+  # the check to run: the property the seed was written for, unless its meta says that another check is the one that detects it
+  p=$(python3 -c "import json;m=json.load(open('seeded/$n/meta.json'));d=list(m.get('detected_by',{}));print(m['property'] if (m['property'] in d or not d) else d[0])")
   git -C "$R" apply --whitespace=nowarn "$V/seeded/$n/patch.diff" 2>/dev/null || { echo "$n $p PATCH-DOES-NOT-APPLY"; git -C "$R" checkout -- . ; continue; }
   out=$(timeout 3000 bin/check $p --tier quick 2>&1); rc=$?
   if [ $rc -eq 0 ]; then echo "$n $p MISSED"
